@@ -119,6 +119,7 @@ type Scenario struct {
 	AgeHours            int            `json:"age_hours,omitempty"`              // every block (the announced ones too) is this many hours old: with 25+ the service never considers its chain current (it then follows inv announcements of its sync peer only)
 	DelayPoints         map[string]int `json:"delay_points,omitempty"`           // milliseconds a goroutine of the default engine pauses at a named delay point of the repository (build tag verif), to widen interleavings
 	IdleSec             int            `json:"idle_sec,omitempty"`               // after the initial sync nothing happens for this many seconds (the sync manager's periodic sync-peer check runs every 30 s and judges a quiet peer after three of them)
+	DeadWebhook         bool           `json:"dead_webhook,omitempty"`           // a webhook is registered whose target refuses connections (nothing listens there)
 	HeldWebhook         bool           `json:"held_webhook,omitempty"`           // a webhook is registered whose endpoint accepts every delivery and answers none of them until the initial sync has been judged
 	DropNode0AfterSync  bool           `json:"drop_node0_after_sync,omitempty"`  // C06: node 0 drops all connections after the initial sync and stays unreachable; node 1 (a laggard that catches up) is the honest announcer from then on
 }
@@ -571,6 +572,19 @@ func Execute(s *Scenario, dir string) (res *Result) {
 		// reads the payload and takes its time, so that deliveries of consecutive headers overlap)
 		lg := *sv.Logger
 		sv.Notifier.AddChannel(notification.NewWebsocketChannel(&lg, &slowPublisher{x: x}, c.Websocket))
+		if s.DeadWebhook {
+			// a registered webhook whose target is gone: every delivery fails with "connection refused"
+			if ln, err := net.Listen("tcp4", "127.0.0.1:0"); err == nil {
+				dead := "http://" + ln.Addr().String() + "/gone"
+				_ = ln.Close()
+				sv.Notifier.AddChannel(sv.Webhooks)
+				if _, err := sv.Webhooks.CreateWebhook("BEARER", "", "t", dead); err != nil {
+					x.count("dead_webhook_registration_failed", 1)
+				} else {
+					x.count("scenarios_with_a_webhook_whose_target_is_gone", 1)
+				}
+			}
+		}
 		if x.hook != nil {
 			// as cmd/main.go: the webhooks service is a notification channel; one webhook is registered
 			sv.Notifier.AddChannel(sv.Webhooks)
